@@ -3,6 +3,7 @@
 LOOP_TRUST = [
     "hand-written model coq/theories/Loop.v of do_remapping_loop_one_device (src/remapping_loop.rs), tied to the code by the loop engine: the real loop is run through the remapping_loop::verif hook against a scripted driver and Loop.run is run on the same answers; calls, send payloads, requested time-outs (tolerance = width of the wall-clock bracket + 5 ms) and return value are compared",
     "transcript checkers coq/theories/LoopMonitors.v (extracted, applied to the real loop's transcripts); the theorems say they never fire on Loop.run",
+    "what the loop is compared on does not include the mapper's choice of event order inside a batch: a send that directly follows a read and carries exactly what the REAL Mapper (one instance fed the transcript's inputs by the harness, RM lines) returned for that read is abstracted to 'the mapper's output for that read' on both sides, and a C10.sends / C12.off_fresh report of the extracted checker on such a send is filed as a difference of class MAPPER_MODEL (the mapper differs from its model: the business of C01-C09, C19 and their mapper engine), not as a failure of the loop",
     "coq/theories/LoopEnv.v: edge-triggered device semantics (hand-written oracle), simulated by the harness' scripted driver",
     "the mapper facts the loop theorems need (invariant Inv preserved by step/release_all, output traces well-formed w.r.t. pass+mout, the state after release_all is bisimilar to init: MapperInv.v, MapperRefire.v) are proved, not assumed: the only premise of the C10-C12, C20 theorems is for_layout_ok L = true",
     "hand-written model coq/theories/Mapper.v of src/key_transforms.rs (tied to the code by the mapper engine)",
@@ -58,7 +59,7 @@ PROPS["C10"] = dict(PROPS["C10"],
                     ". Bytes level (Pipeline.v): for every byte stream on the keyboard device and every chunking, the bytes written are device_bytes_out of the byte prefix that was read, reading them back with the tool's own reader gives the mapper's event sequence, and when every physical key is up again nothing is left down on the virtual keyboard (C10_bytes_out_*, C10_no_stuck_keys_at_the_device*, C10_every_write_keeps_the_device_in_step: every write incl. timer chords keeps the device in step with the mapper's bookkeeping). Second engine realloop: the same statement is checked end to end on the real loop with the real epoll driver over pipes "
                     "(any batching of the input into write(2) calls gives exactly the bytes of the model's sends; nothing stays unread while the loop "
                     "sleeps; nothing is written after the end); a deviation is reported as clause C10.real_epoll with layout, history, batching and the "
-                    "first differing record. A difference that is exactly what the in-process real Mapper computes is reported in class OBS_C10 instead "
+                    "first differing record. A difference that is exactly what the in-process real Mapper computes is reported in class MAPPER_MODEL instead, which no loop property observes "
                     "(the mapper differs from its model, the loop transported it faithfully)",
                     assumptions=LOOP_ASSUME + ["realloop: a pipe never reports ENODEV, so end-of-device is exercised by the loop engine only; the child is killed at the end of each run"])
 
